@@ -77,7 +77,7 @@ type rModel struct {
 
 var rPrims = []struct{ sysl, rel string }{{"int", "INT"}, {"string", "STRING"}, {"bool", "BOOL"}, {"date", "DATE"}, {"float", "FLOAT"}, {"decimal", "DECIMAL"}}
 
-func genRStmts(r *Rand, depth, n int, apps []string) []rStmt {
+func genRStmts(r *Rand, depth, n int, apps []string, self string) []rStmt {
 	var out []rStmt
 	for i := 0; i < n; i++ {
 		k := r.Intn(12)
@@ -89,16 +89,19 @@ func genRStmts(r *Rand, depth, n int, apps []string) []rStmt {
 			a := Pick(r, apps)
 			out = append(out, rStmt{K: "leaf", D: "call:" + a + "<-Op", src: a + " <- Op"})
 		case k == 4:
-			p := Pick(r, []string{"ok <: string", "error <: Problem", "ok <: sequence of Thing", "ok"})
-			st := strings.TrimSpace(strings.Split(p, "<:")[0])
-			out = append(out, rStmt{K: "leaf", D: "ret:" + st, src: "return " + p})
+			pp := Pick(r, []struct{ src, ty string }{
+				{"ok <: string", "prim:string"}, {"error <: Problem", "ref:" + self + ".Problem"},
+				{"ok <: sequence of Thing", "seq(ref:" + self + ".Thing)"}, {"ok <: set of Thing", "set(ref:" + self + ".Thing)"},
+				{"ok <: Ledger.Entry", "ref:Ledger.Entry"}, {"ok", "none"}})
+			st := strings.TrimSpace(strings.Split(pp.src, "<:")[0])
+			out = append(out, rStmt{K: "leaf", D: "ret:" + st + ":" + pp.ty, src: "return " + pp.src})
 		case k == 5:
 			out = append(out, rStmt{K: "placeholder", src: "..."})
 		case k == 6 && depth > 0:
 			na := 2 + r.Intn(2)
 			s := rStmt{K: "alt", src: "one of:"}
 			for j := 0; j < na; j++ {
-				s.Alts = append(s.Alts, rAlt{Cond: fmt.Sprintf("case%d", j), Body: genRStmts(r, depth-1, 1+r.Intn(3), apps)})
+				s.Alts = append(s.Alts, rAlt{Cond: fmt.Sprintf("case%d", j), Body: genRStmts(r, depth-1, 1+r.Intn(3), apps, self)})
 			}
 			out = append(out, s)
 		case depth > 0:
@@ -119,7 +122,7 @@ func genRStmts(r *Rand, depth, n int, apps []string) []rStmt {
 			}
 			// deep nesting with >= 3 siblings is what exposed shared index storage
 			nn := 1 + r.Intn(4)
-			out = append(out, rStmt{K: "block", D: d, Body: genRStmts(r, depth-1, nn, apps), src: src})
+			out = append(out, rStmt{K: "block", D: d, Body: genRStmts(r, depth-1, nn, apps, self), src: src})
 		default:
 			t := fmt.Sprintf("step %d", r.Intn(100))
 			out = append(out, rStmt{K: "leaf", D: "action:" + t, src: t})
@@ -182,6 +185,7 @@ func genRModel(r *Rand) *rModel {
 		plainNames = append(plainNames, strings.ReplaceAll(appNames[i], " :: ", " :: "))
 	}
 	var b strings.Builder
+	published := map[int]string{}
 	tagPool := []string{"rest", "db", "internal", "beta"}
 	mkMeta := func() (tags, annos []string, src string) {
 		var parts []string
@@ -321,7 +325,7 @@ func genRModel(r *Rand) *rModel {
 				ps = " (" + strings.Join(psrc, ", ") + ")"
 			}
 			b.WriteString(fmt.Sprintf("    %s%s%s:\n", ep.Name, ps, esrc))
-			ss := genRStmts(r, 6, 1+r.Intn(4), []string{"Shop", "Ledger"})
+			ss := genRStmts(r, 6, 1+r.Intn(4), []string{"Shop", "Ledger"}, plainNames[i])
 			renderRStmts(&b, ss, "        ")
 			ep.Stmts = normBody(ss)
 			if ep.Tags == nil {
@@ -330,6 +334,21 @@ func genRModel(r *Rand) *rModel {
 			if ep.Annos == nil {
 				ep.Annos = []string{}
 			}
+			a.Eps = append(a.Eps, ep)
+		}
+		// an event this application publishes, and a subscription to the previous application's event
+		if r.Chance(1, 2) {
+			evName := fmt.Sprintf("Evt%d", i)
+			a.Eps = append(a.Eps, rEp{Name: evName, Event: true, Params: []rParam{}, Stmts: []rStmt{}, Tags: []string{}, Annos: []string{}})
+			b.WriteString(fmt.Sprintf("    <-> %s:\n        ...\n", evName))
+			published[i] = evName
+		}
+		if i > 0 && published[i-1] != "" && r.Chance(2, 3) {
+			src := plainNames[i-1]
+			nm := src + " -> " + published[i-1]
+			ep := rEp{Name: nm, Desc: "sub:" + src + "|" + published[i-1], Params: []rParam{}, Tags: []string{}, Annos: []string{},
+				Stmts: []rStmt{{K: "leaf", D: "action:handle it"}}}
+			b.WriteString(fmt.Sprintf("    %s:\n        handle it\n", nm))
 			a.Eps = append(a.Eps, ep)
 		}
 		// a REST endpoint with path and query parameters
@@ -396,6 +415,9 @@ func canonSchema(s *relmod.Schema) [][2]string {
 		if e.Rest.Method != "" || e.Rest.Path != "" {
 			d = e.Rest.Method + " " + e.Rest.Path
 		}
+		if e.EpEvent.EventName != "" || len(e.EpEvent.AppName.Part) > 0 {
+			d = "sub:" + j(e.EpEvent.AppName.Part) + "|" + e.EpEvent.EventName
+		}
 		add("ep", j(e.AppName)+"|"+e.EpName+"|"+d)
 	}
 	for _, e := range s.Event {
@@ -424,7 +446,7 @@ func canonSchema(s *relmod.Schema) [][2]string {
 		case st.StmtAlt != nil:
 			d = fmt.Sprintf("alt %v", st.StmtAlt["choice"])
 		case st.StmtRet.Status != "" || st.StmtRet.Type != nil:
-			d = "ret:" + st.StmtRet.Status
+			d = "ret:" + st.StmtRet.Status + ":" + canonType(st.StmtRet.Type)
 		}
 		add("stmt", j(st.AppName)+"|"+st.EpName+"|"+pathKey(st.StmtIndex)+"|"+d)
 	}
